@@ -113,9 +113,17 @@ def needs_tz_crosscheck(rep, F, rp_table, rule='R-TABLE'):
     enums = F.raw['enums']
     n = 0
     bad = []
+    # the hint's two inputs by type: the mode (a RoundingMode parameter, or the `mode` field of a rounding-data parameter) and
+    # the insignificant digit (the u8 parameter) - wherever they stand
+    tys = fn.argtys()
+    mode_terms = [T('param', i) for i, ty in enumerate(tys, 1) if re.search(r'RoundingMode$', ty.lstrip('&'))] + \
+                 [T('field', T('param', i), 'mode') for i, ty in enumerate(tys, 1) if re.search(r'NonDigitRoundingData$', ty.lstrip('&'))]
+    digit_terms = [T('param', i) for i, ty in enumerate(tys, 1) if ty.lstrip('&') == 'u8']
+    if len(mode_terms) != 1 or len(digit_terms) != 1:
+        mode_terms, digit_terms = [T('param', 1)], [T('param', 2)]
     for mode in MODES:
         for d in range(10):
-            ev = TB.Evaluator(enums, {T('param', 1): ('variant', 'RoundingMode', mode), T('param', 2): d})
+            ev = TB.Evaluator(enums, {mode_terms[0]: ('variant', 'RoundingMode', mode), digit_terms[0]: d})
             n += 1
             try:
                 atoms, out = ev.select(paths)
